@@ -217,20 +217,7 @@ func runC02(c *kit.Ctx) {
 
 	// the cells delivered to a caller alias the frame buffer of its response: that buffer must not be recycled
 	{
-		allowed := map[string]string{
-			"(*region.client).send":                   "the compressed request buffer, after it was written",
-			"(*region.compressor).compressCellblocks": "the scratch chunk buffer of the compressor",
-		}
-		for k, v := range allowed {
-			c.Table("C02.R3 buffer recycling allowed in " + k + ": " + v)
-		}
-		n := 0
-		for _, s := range callersOf(p, kit.M("region", "", "freeBuffer")) {
-			n++
-			fn := enclosingNamed(s.Parent())
-			_, ok := allowed[kit.FuncName(fn)]
-			c.Check(ok, s.Parent(), "buffer-recycled", s.Pos(), "request-side scratch buffer returned to the pool", "a buffer is returned to the pool on the response path (or a new place): decoded cells handed to callers are sub-slices of the frame buffer, so a later response overwrites the rows and values an earlier caller still holds")
-		}
+		noResponseBufferRecycling(c)
 		// the frame buffer of a response is allocated per frame
 		fresh := false
 		kit.Instrs(recv, func(in ssa.Instruction) {
@@ -424,6 +411,12 @@ func runC02(c *kit.Ctx) {
 		c.Check(okDel, mret, "exception-to-region-calls", mret.Pos(), "a region exception is sent to exactly the calls with c.Region() == m.regions[i]", "region exceptions are no longer delivered by comparing the call's region with m.regions[i]")
 	}
 
+	// ---- R7 ---------------------------------------------------------------
+	c.StartRule("R7", "batch results are stored in the slot of the call they belong to (the positional rules of C07, run as one rule here)", 20)
+	c.Frozen = true
+	runC07(c)
+	c.Frozen = false
+
 	// ---- R6 ---------------------------------------------------------------
 	c.StartRule("R6", "cellblock cursor discipline", 3)
 	{
@@ -471,5 +464,133 @@ func runC02(c *kit.Ctx) {
 				c.Unk(fn, "nested-decoder", fn.Pos(), "no nested decoder call found")
 			}
 		}
+		// the per-call decoders used under a multi response report exactly what they consumed: the
+		// multi decoder advances its shared cursor by that number, so a decoder that skips its cells
+		// (and reports 0) shifts every later result of the response onto the wrong cells
+		for _, d := range []dec{{"hrpc", "Get", "DeserializeCellBlocks"}, {"hrpc", "Mutate", "DeserializeCellBlocks"}} {
+			fn := c.Anchor(d.rel, d.recv, d.name)
+			if fn == nil {
+				continue
+			}
+			nested := kit.Calls(fn, kit.M("hrpc", "", "deserializeCellBlocks"))
+			kit.Instrs(fn, func(in ssa.Instruction) {
+				r, ok := in.(*ssa.Return)
+				if !ok || len(r.Results) != 2 || !kit.IsNilConst(kit.Root(r.Results[1])) {
+					return
+				}
+				v := kit.Root(r.Results[0])
+				good, why := false, ""
+				if ex, ok := v.(*ssa.Extract); ok && ex.Index == 1 && len(nested) == 1 && ex.Tuple == nested[0].Value() {
+					good, why = true, "returns the count read by deserializeCellBlocks"
+				} else if k, ok := kit.ConstInt(v); ok && k == 0 {
+					for _, f := range kit.FactsAt(r.Block()) {
+						cmp, ok := kit.CanonCmp(f.Cond, f.Pol)
+						if !ok || cmp.Op != token.EQL || !kit.IsNilConst(cmp.Y) {
+							continue
+						}
+						if _, fv := kit.FieldRead(cmp.X); fv != nil && fv.Name() == "Result" {
+							good, why = true, "returns 0 only where the response carries no Result"
+						}
+					}
+				}
+				c.Check(good, fn, "decoder-reports-consumption", r.Pos(), why, "a per-call decoder can succeed reporting a number of consumed bytes that is not what the cells declared by its response occupy (e.g. 0 for a call nobody waits for any more): under a multi response the shared cursor stops short and the following calls are given this call's cells or a short-read error")
+			})
+			if len(nested) == 1 {
+				// the nested decoder is told the count the response declares
+				cnt := nested[0].Common().Args[1]
+				okCnt := false
+				if cv, ok := kit.Strip(cnt).(*ssa.Convert); ok {
+					if g, ok := kit.Root(cv.X).(*ssa.Call); ok && strings.HasSuffix(kit.CalleeName(g), "pb.Result).GetAssociatedCellCount") {
+						okCnt = true
+					}
+				}
+				c.Check(okCnt, fn, "decoder-count-from-response", nested[0].Pos(), "cell count = Result.GetAssociatedCellCount()", "the number of cells consumed is not the count declared by the response")
+			} else {
+				c.Unk(fn, "decoder-count-from-response", fn.Pos(), "expected exactly one nested deserializeCellBlocks call")
+			}
+		}
+		// results are consumed in the order the response lists them (the cells in the trailing block
+		// are in that order): the listed results are not reordered before the loop
+		if md := p.Func("region", "multi", "DeserializeCellBlocks"); md != nil {
+			n := 0
+			kit.Instrs(md, func(in ssa.Instruction) {
+				call, ok := in.(*ssa.Call)
+				if !ok {
+					return
+				}
+				nm := kit.CalleeName(call)
+				if !strings.HasSuffix(nm, "GetResultOrException") && !strings.HasSuffix(nm, "GetRegionActionResult") {
+					return
+				}
+				n++
+				bad := ""
+				seen := map[ssa.Value]bool{}
+				var uses func(v ssa.Value)
+				uses = func(v ssa.Value) {
+					if seen[v] {
+						return
+					}
+					seen[v] = true
+					for _, r := range kit.Referrers(v) {
+						switch u := r.(type) {
+						case *ssa.MakeInterface:
+							bad = "passed on as interface{} (sort.Slice and friends) at " + p.Pos(u.Pos())
+						case *ssa.Call:
+							if cn := kit.CalleeName(u); cn != "builtin.len" && cn != "builtin.cap" {
+								bad = "passed to " + kit.ShortName(cn) + " at " + p.Pos(u.Pos())
+							}
+						case *ssa.MakeClosure:
+							bad = "captured by a function literal at " + p.Pos(u.Pos())
+						case *ssa.Store:
+							if u.Val == v {
+								if al, ok := u.Addr.(*ssa.Alloc); ok {
+									for _, rr := range kit.Referrers(al) {
+										if l, ok := rr.(*ssa.UnOp); ok {
+											uses(l)
+										}
+										if _, ok := rr.(*ssa.MakeClosure); ok {
+											bad = "captured by a function literal at " + p.Pos(rr.Pos())
+										}
+									}
+								} else {
+									bad = "stored away at " + p.Pos(u.Pos())
+								}
+							}
+						case *ssa.IndexAddr:
+							for _, rr := range kit.Referrers(u) {
+								if st, ok := rr.(*ssa.Store); ok && st.Addr == ssa.Value(u) {
+									bad = "an element is overwritten at " + p.Pos(st.Pos())
+								}
+							}
+						case *ssa.Slice, *ssa.Phi:
+							uses(u.(ssa.Value))
+						}
+					}
+				}
+				uses(call)
+				c.Check(bad == "", md, "results-in-response-order", call.Pos(), "the list is only ranged over / indexed / measured", "the list of results of the response is "+bad+" before it is consumed: if it is reordered, the running cellblock cursor hands each call the cells of another (the totals still add up, so no short read is noticed)")
+			})
+			if n < 2 {
+				c.Unk(md, "results-in-response-order", md.Pos(), "the two result lists of a multi response are no longer read through their getters")
+			}
+		}
+	}
+}
+
+// noResponseBufferRecycling: decoded cells alias the (decompressed) frame buffer of their response;
+// buffers go back to the pool only at the request-side sites of the table. Shared by C02.R3 and C15.R2.
+func noResponseBufferRecycling(c *kit.Ctx) {
+	p := c.P
+	allowed := map[string]string{
+		"(*region.client).send":                   "the compressed request buffer, after it was written",
+		"(*region.compressor).compressCellblocks": "the scratch chunk buffer of the compressor",
+	}
+	for k, v := range allowed {
+		c.Table("C02.R3 buffer recycling allowed in " + k + ": " + v)
+	}
+	for _, s := range callersOf(p, kit.M("region", "", "freeBuffer")) {
+		fn := enclosingNamed(s.Parent())
+		_, ok := allowed[kit.FuncName(fn)]
+		c.Check(ok, s.Parent(), "buffer-recycled", s.Pos(), "request-side scratch buffer returned to the pool", "a buffer is returned to the pool on the response path (or a new place): decoded cells handed to callers are sub-slices of the frame buffer, so a later response overwrites the rows and values an earlier caller still holds")
 	}
 }
